@@ -255,6 +255,46 @@ def run(ck, replay=None):
     rng = random.Random(ck.seed)
     quick = ck.tier == "quick"
     work = tempfile.mkdtemp(prefix="c18-", dir=ck.work)
+    # two corrections of one class with other configurations, both saved and read back ("make" = read_correction), used along
+    # every interleaving of spec/TwoObjects.tla: each reloaded correction is the one IT was saved from
+    from lib import twoobj
+    thists = twoobj.histories(ck)
+    tspecs = []
+    Ht, Wt = 6, 7
+    tin = np.random.RandomState(12).rand(Ht, Wt, 3)
+    zero_b = {"horizontal_bulge": 0.0, "horizontal_center_offset": 0, "vertical_bulge": 0.0, "vertical_center_offset": 0}
+
+    def mk_illum(o):
+        ic = darsia.IlluminationCorrection()
+        ic.colorspace = "rgb-scalar"
+        ic.local_scaling = [darsia.ScalarImage(np.full((Ht, Wt), 2.0 if o == "a" else 0.5), dimensions=[1.0, 1.0])]
+        return ic
+
+    originals = {"curvature": lambda o: darsia.CurvatureCorrection(config={"bulge": dict(zero_b, horizontal_bulge=1e-3 if o == "a" else 0.0, vertical_bulge=0.0 if o == "a" else 2e-3)}),
+                 "illumination": mk_illum, "type": lambda o: darsia.TypeCorrection(np.float32 if o == "a" else np.float64)}
+    for kind, mk in originals.items():
+        paths, expected = {}, {}
+        for o in ("a", "b"):
+            with contextlib.redirect_stdout(io.StringIO()), warnings.catch_warnings():
+                warnings.simplefilter("ignore")
+                c0 = mk(o)
+                paths[o] = Path(work) / f"twin_{kind}_{o}.npz"
+                c0.save(paths[o])
+
+        def make(o, paths=paths):
+            with contextlib.redirect_stdout(io.StringIO()), warnings.catch_warnings():
+                warnings.simplefilter("ignore")
+                return darsia.read_correction(paths[o])
+
+        def use(o, corr):
+            with contextlib.redirect_stdout(io.StringIO()), warnings.catch_warnings():
+                warnings.simplefilter("ignore")
+                r_ = np.asarray(corr.correct_array(tin.copy()))
+            return [np.asarray(r_, dtype=float), np.array([r_.dtype.itemsize], dtype=float)]
+
+        sel = thists if not quick else [h for h in thists if len(h) <= 4]
+        tspecs.append((sel, "reloaded-" + kind, make, use, lambda x, y: all(p_.shape == q_.shape and np.allclose(p_, q_, rtol=1e-6, atol=1e-7) for p_, q_ in zip(x, y)), "twin:" + kind))
+    ck.cov["twin_object_histories"] = twoobj.run(ck, "C18", tspecs)
     sel = cfgs if not quick else rng.sample(cfgs, 160)
     events = []
     for i, cfg in enumerate(sel):
